@@ -139,7 +139,8 @@ def validate_records(c, trace, name):
     acc, rej, st = vlib.validate_cases(parts, c.prop + "-" + name, chunk_events=2000)
     nev = sum(len(x[1]) - 2 for x in parts)
     log("[conform] %s: %d records, %d rejected" % (name, nev, len(rej)))
-    c.cov["traces_validated_against_impl"] += len(acc)
+    accepted = set(acc)
+    c.cov["traces_validated_against_impl"] += sum(len(x[1]) - 2 for x in parts if x[0] in accepted)   # records judged and accepted
     c.cov["evaluations"] += nev
     c.cov["trace_events"] += nev
     for x in parts:
